@@ -340,12 +340,17 @@ func (g *rgen) stmts(d int, max int) string {
 	return sb.String()
 }
 
-// must-pass inputs of repaired findings (C13-D1, fixed by 6d63f64): identifiers that are
+// must-pass inputs of repaired findings (C13-D1, fixed by 6d63f64; C13-D7, fixed by ac301ad): identifiers that are
 // printed with a \u{...} escape followed by a word, under minify-whitespace + ascii
 var mustPassCorpus = []string{
 	"var \U00010000; \U00010000 in x", "import {\U00010000 as x} from 'p'", "import * as \U00010000 from 'p'; \U00010000", "export * as \U00010000 from 'p'",
 	"x = \U00010000 instanceof y", "for (\U00010000 of y);", "for (var a\U00010000 in y);", "class \U00010000 extends y {}", "x = a\U0001F600 in b", "function f(){ return \U00010000 in y }",
 	"var \u00e9; \u00e9 in x", "typeof \U00010000 in y", "void \U00010000 instanceof y", "if (a) \U00010000\nelse b",
+	// C13-D7 (fixed by ac301ad): an expression statement must not start with "let ["
+	"(let)[x]", "(let)[x] = 1", "function* f(){l\\u0065t[true]\n}", "function f(){ l\\u0065t[x] }", "if (a) (let)[x]; else (let)[y]",
+	"x => { (let)[x] }", "(let)[x].y++", "(let)[x]()", "for ((let)[x] of y);", "a = (let)[x]", "(let)?.[x]",
+	// C13-D5 (fixed by 3eb6e21): function declaration in an if/label body inside "with"
+	"function f(){ with (x) if (a) function g(){} }", "function f(){ with (x) { if (a) function g(){} else function h(){} } }", "function f(){ with (x) L: function g(){} }",
 }
 
 var boundaryCorpus = []string{
@@ -493,9 +498,7 @@ var (
 	reStaticBlock     = regexp.MustCompile(`\bstatic\s*\{`)
 	reOctalish        = regexp.MustCompile(`\\[0-9]|(^|[^\w.$\\])0[0-9]`)
 	reAsyncArrowAwait = regexp.MustCompile(`async\s*\(?[^)=]*\bawait\b[^)=]*\)?\s*=>`)
-	reWithIfFn        = regexp.MustCompile(`\bwith\b[\s\S]*\bfunction\b`)
 	reExportStarEval  = regexp.MustCompile(`export\s*\*\s*as\s*(eval|arguments)\b`)
-	reLetBracket      = regexp.MustCompile(`(^|[;{}\n])\s*let\[`)
 	reClassCode       = regexp.MustCompile(`\bclass\b`)
 	reCatchPattern    = regexp.MustCompile(`catch\s*\(\s*[\[{]`)
 	rePostfixNewline  = regexp.MustCompile("(\\+\\+|--)[ \t]*\n\\s*[\\[(`]")
@@ -550,17 +553,11 @@ func knownRejection(c *glueCase, goal string) string {
 
 // second Transform differs from the first output
 func knownNotFixed(c *glueCase) string {
-	if strings.Contains(c.err2, "has already been declared") && reWithIfFn.MatchString(c.src) {
-		return "recurrence of known finding C13-D5: function declaration in an if/label body inside `with` is lowered to `let g` + `var g` in one block"
-	}
 	if c.err2 != "" && reAsyncArrowAwait.MatchString(c.out1) {
 		return "recurrence of known finding C13-D3e: `await` as parameter of an async arrow function accepted"
 	}
 	if strings.Contains(c.err2, "Cannot use \"let\" as an identifier here") && reLetLet.MatchString(c.out1) {
 		return "recurrence of known finding C13-D3c: `let` as a lexically bound name accepted"
-	}
-	if reLetBracket.MatchString(c.out1) {
-		return "recurrence of known finding C13-D7: expression statement starting with the identifier let followed by [ printed without parentheses"
 	}
 	if strings.Contains(c.err2, "\"=>\"") && regexp.MustCompile(`(^|[;{}\n):])\s*using\s*=>`).MatchString(c.out1) {
 		return "recurrence of known finding C13-D2f: statement `using => 1` rejected"
@@ -594,12 +591,6 @@ func knownNotFixed(c *glueCase) string {
 
 // node accepts the input but not the output
 func knownInvalidOutput(c *glueCase, goal, nodeErr string) string {
-	if strings.Contains(nodeErr, "has already been declared") && reWithIfFn.MatchString(c.src) {
-		return "recurrence of known finding C13-D5: function declaration in an if/label body inside `with` is lowered to `let g` + `var g` in one block"
-	}
-	if reLetBracket.MatchString(c.out1) {
-		return "recurrence of known finding C13-D7: expression statement starting with the identifier let followed by [ printed without parentheses"
-	}
 	if reReexportBinding.MatchString(c.src) && (strings.Contains(nodeErr, "eval or arguments") || strings.Contains(nodeErr, "reserved word")) {
 		return "recurrence of known finding C13-D6: `export * as eval/arguments` becomes a binding named eval/arguments in strict code"
 	}
@@ -664,10 +655,8 @@ var knownReplays = []knownReplay{
 	{"known-D3c", "known-D3c-let-as-lexically-bound-name-accepted", "let [let] = 1", variant{}, "passthrough", "an error"},
 	{"known-D3d", "known-D3d-await-identifier-with-module-syntax-accepted", "function f(){ return aw\\u0061it } import.meta", variant{}, "passthrough", "an error"},
 	{"known-D3e", "known-D3e-await-parameter-of-async-arrow-accepted", "function f(){ async (await) => ({}) }", variant{}, "passthrough", "an error"},
-	{"known-D5", "known-D5-function-in-if-inside-with-duplicate-declaration", "function f(){ with (x) if (a) function g(){} }", variant{}, "unreparsable", "output that esbuild and node can read back (the input is a valid sloppy-mode script)"},
 	{"known-D6", "known-D6-export-star-as-eval-creates-strict-binding", "export * as eval from 'm'", variant{format: api.FormatESModule}, "invalidout", "valid module output (the input is a valid module)"},
 	{"known-D4c", "known-D4c-parentheses-added-behind-preserved-comment", "class Foo { foo =/**/() => super.x }", variant{}, "notfixed", "second Transform reproduces the first output"},
-	{"known-D7", "known-D7-let-bracket-statement-start-not-parenthesised", "(let)[x]", variant{}, "invalidout", "`(let)[x];` (an expression statement may not start with `let [`)"},
 	{"known-D8", "known-D8-commonjs-wrapper-in-esm-keeps-sloppy-identifiers", "return\nlet", variant{format: api.FormatESModule}, "unreparsable", "an error, or ESM output that is valid strict code"},
 	{"known-D9", "known-D9-postfix-newline-bracket-not-asi", "a++\n[]", variant{}, "rejected", "accepted: `a++` and `[]` are two statements (ASI: `a++[` is not derivable)"},
 	{"known-D2e", "known-D2e-yield-identifier-in-for-of-rejected", "function f(){ for (yield of x); }", variant{}, "rejected", "accepted (yield is an identifier in a sloppy non-generator function)"},
